@@ -305,3 +305,8 @@ def c08_miri(pid, tier, seed, work):
     r["assumptions"] = ["Miri explores one schedule per seed; a clean run covers those schedules only"]
     r["_wall"] = time.time() - t
     return r
+
+
+def c14_programs(pid, tier, seed, work):
+    import c14gen
+    return c14gen.run(pid, tier, seed, work)
